@@ -34,7 +34,7 @@ LEVEL_TEXT.update({
     'C04': 'Translation kernel: unbounded Verus proofs that every literal character (all of char) is emitted as text denoting itself outside and inside a character class, that ? * become . .*, that a range is start-hyphen-end, and of make_range; bounded Kani checks (every ASCII character, one-character symbols) for the emitters Verus cannot take, and the unclosed-[ case. Not a decision of the language equality, which is delegated to the regex engine.',
 })
 LEVEL_TEXT.update({
-    'C07': 'Complete per-character proofs (Kani, loop-free over every char) that the quoting decision and the lexer classify characters consistently, plus a bounded check (texts of <= 2 characters over 16 characters, literal expectations) that quoted()/Display for Quoted produce a form that reads back as the original text; the printers of state listings and the lexer as a whole are not decided.',
+    'C07': 'Complete per-character proofs (Kani, loop-free over every char) that the quoting decision and the lexer classify characters consistently, plus a bounded check (texts of <= 2 characters over 16 characters, literal expectations) that quoted()/Display for Quoted produce a form that reads back as the original text, and five concrete values through the value printer (QuotedValue); the printers of state listings and the lexer as a whole are not decided.',
     'C16': 'Unbounded deductive proof (Verus) on the real variable store: get_or_new (three scopes), unset and push_context preserve the representation invariant from every state and agree with the naive stack-of-maps scoping model (innermost definition visible, lower contexts untouched, only volatile definitions dropped, read-only never unset or assigned); an inductive invariant over all histories of these operations, which is what the property quantifies over. the same for pop_context (locals vanish, lower definitions persist), for iteration by scope and (one direction) for the exported environment; the interpreter\'s use of scopes is not decided.',
 })
 LEVEL_TEXT.update({
